@@ -646,6 +646,9 @@ func (ex *Exec) indexAddr(g *Goroutine, fr *Frame, in *ssa.IndexAddr) Ptr {
 		ex.check(g, fr, ex.C.Cmp(OUlt, idx, ex.i64(at.Len())), "index out of range", in.Pos())
 		var arr Array
 		if x.Slot != nil {
+			if big, ok := bigArrayOf(*x.Slot); ok {
+				return Ptr{Arr: big, Idx: idx}
+			}
 			arr = (*x.Slot).(Array)
 		} else if x.Arr != nil && x.Arr.isDense() {
 			k, ok := constInt(x.Idx)
@@ -693,6 +696,9 @@ func (ex *Exec) index(g *Goroutine, fr *Frame, in *ssa.Index) Value {
 		idx = ex.C.ZExt(ex.get(fr, in.Index).(*Term), 64)
 	}
 	switch x := x.(type) {
+	case *ArrObj:
+		ex.check(g, fr, ex.C.Cmp(OUlt, idx, x.N), "index out of range", in.Pos())
+		return ex.loadElem(x, idx)
 	case Array:
 		ex.check(g, fr, ex.C.Cmp(OUlt, idx, ex.i64(int64(len(x)))), "index out of range", in.Pos())
 		return copyVal(ex.readDense(x, idx, in.Type()))
@@ -799,6 +805,9 @@ func (ex *Exec) sliceOp(fr *Frame, in *ssa.Slice) Value {
 		ex.check(g, fr, ok, "slice bounds out of range", in.Pos())
 		var arr Array
 		if x.Slot != nil {
+			if big, ok := bigArrayOf(*x.Slot); ok {
+				return Slice{Arr: big, Off: lo, Len: c.Bin(OSub, hi, lo), Cap: c.Bin(OSub, max, lo)}
+			}
 			arr = (*x.Slot).(Array)
 		} else {
 			k, okc := constInt(x.Idx)
